@@ -132,6 +132,8 @@ structure Engine where
   nextOpId : Nat := 1
   nextPacketId : Nat := 1
   hasConnected : Bool := false
+  /-- `connect_clean_start`: the CONNECT of the current connection asked for a clean start / clean session -/
+  connectClean : Bool := false
   encSteps : List Step := []
   dec : Decoder := {}
   nextPing : Option Nat := none
@@ -445,6 +447,10 @@ def Engine.createConnect (e : Engine) : Packet :=
   if e.cfg.version == .v311 && (c.clientId.getD []).isEmpty then .connect { c with cleanStart := true }
   else .connect c
 
+def connectIsClean : Packet → Bool
+  | .connect c => c.cleanStart
+  | _ => false
+
 /-- `handle_network_event_connection_opened` -/
 def Engine.handleOpened (e : Engine) (deadline : Nat) : Engine × Res :=
   if e.state != .disconnected then ({ e with state := .halted }, .err "InternalStateError")
@@ -453,7 +459,7 @@ def Engine.handleOpened (e : Engine) (deadline : Nat) : Engine × Res :=
     let (e2, id) := e1.createOp e1.createConnect none
     match e2.enqueue id .high true with
     | none => (e2, .panic "enqueue_nonexistent_operation")
-    | some e3 => ({ e3 with connackDeadline := some deadline }, .ok)
+    | some e3 => ({ e3 with connackDeadline := some deadline, connectClean := connectIsClean e1.createConnect }, .ok)
 
 /-- `apply_connection_closed_to_current_operation` -/
 def Engine.closeCurrent (e : Engine) : Engine × Res :=
@@ -637,6 +643,9 @@ def Engine.handleConnack (e : Engine) (c : Connack) : Engine × Res :=
   else match vConnackInbound c with
     | .error x => (e, okOrErr (.error x))
     | .ok _ =>
+      -- [MQTT-3.2.2-1/-2/-4]: a server that accepted a clean start has no session to report
+      if c.sessionPresent && e.connectClean then (e, .err "ProtocolError")
+      else
       let s := e.buildSettings c
       let e1 := { e with state := .connected, hasConnected := true, settings := some s, connackDeadline := none,
                          outRes := e.outRes.reset (c.topicAliasMaximum.getD 0), inRes := e.inRes.reset,
